@@ -519,7 +519,7 @@ def client_close(E):
 RCV = BASE + '._receiver'
 
 
-@harness('c11.receiver_exit', ['C11'], functions=[RCV, BASE + '._on_connection_closed'],
+@harness('c11.receiver_exit', ['C11', 'C07'], functions=[RCV, BASE + '._on_connection_closed'],
          assumptions=['_receiver_listen is used through its exit behaviours: returns (EOF / not alive), raises RSocketTransportError, '
                       'is cancelled (CancelledError), or raises another Exception',
                       'RequestHandler.on_close is abstract'])
@@ -551,6 +551,8 @@ def receiver_exit(E):
     E.cover('connection-ended')
     E.prove('receiver:eof_transport_error_and_cancellation_all_run_the_clean_up', how in (0, 1, 2))
     E.prove('receiver:clean_up_once_in_order[fail pending, notify application, stop sending]', order == ['stop_all_streams', 'on_close', 'stop_tasks'])
+    E.prove('receiver:pending_requests_are_failed_before_application_code_that_may_suspend_runs[a close or reconnect during on_close must not leave awaitables unresolved]',
+            'stop_all_streams' in order and 'on_close' in order and order.index('stop_all_streams') < order.index('on_close'))
     E.prove('receiver:close_notification_exactly_once_with_the_socket', len(log.of(app, 'on_close')) == 1 and log.of(app, 'on_close')[0][2][0] is sock)
 
 
